@@ -377,6 +377,32 @@ spec("C14", ["C14/", "C11/concurrent"], c14_q, c14_t,
           scenarios="real TracerouteParallel + each parallel-capable real driver (ICMP, UDP, SACK) with 1-2 replies already queued in the capture source (so a reply can be matched before, while or after its probe is recorded); runTracerouteMulti with concurrent failing/succeeding runs and probes; concurrent reverse-DNS lookups; concurrent allocator calls"),
      ["races inside modelled libraries (sync, context model) and in the harness models", "weak-memory effects beyond happens-before", "preemption bound of the job"],
      ["the synchronisation models record release/acquire edges; objects allocated by the context model are excluded from the monitor"], models=ENGINE_MODELS)
+
+# ---- additions: cross-run exclusion (C11b), state independence after noise (C09), redaction ordering (C17) ----
+cross = [J("icmp", "Verif_C11_cross_icmp", ["end"], form=0), J("icmp", "Verif_C11_cross_icmp", ["end"], form=1), J("icmp", "Verif_C11_cross_icmp", ["end"], form=0, v6=1), J("icmp", "Verif_C11_cross_icmp", ["end"], form=1, v6=1),
+         J("udp", "Verif_C11_cross_udp", ["end"]), J("udp", "Verif_C11_cross_udp", ["end"], v6=1, min=3),
+         J("tcp", "Verif_C11_cross_tcp", ["end"], form=0), J("tcp", "Verif_C11_cross_tcp", ["end"], form=1, paris=1), J("tcp", "Verif_C11_cross_tcp", ["end"], form=2),
+         J("sack", "Verif_C11_cross_sack", ["end"], form=0, max=30, loosen=1), J("sack", "Verif_C11_cross_sack", ["end"], form=1, max=30, loosen=1),
+         J("icmp", "Verif_C14_echoid", ["end"]), J("packets", "Verif_C14_alloc", ["end"])]
+SPECS["C11"]["tiers"]["quick"]["jobs"] += cross
+SPECS["C11"]["tiers"]["thorough"]["jobs"] += cross + [J("icmp", "Verif_C11_cross_icmp", ["end"], form=0, W=3), J("udp", "Verif_C11_cross_udp", ["end"], W=3), J("tcp", "Verif_C11_cross_tcp", ["end"], form=1, W=3), J("sack", "Verif_C11_cross_sack", ["end"], form=1, max=255, loosen=1, W=3)]
+SPECS["C11"]["labels"] = ["C11/", "send/", "setup/"]
+SPECS["C11"]["bounds"]["cross-run"] = "two runs of the same protocol to the same target (and port) from the same host, identities differing the way the code relies on: echo identifiers (ICMP), local ports (UDP strict, TCP), local ports and initial sequence numbers more than 255 apart (SACK relaxed); every catalogue reply to a probe of run A is fed to run B's real matcher after B sent the same TTLs"
+SPECS["C11"]["outside_bounds"] = ["more than 65535 live identifiers", "mixed-protocol pairs (e.g. a quoted UDP header read as an echo header)", "UDP/TCP with relaxed source checking (the library never enables it for them)", "several processes"]
+SPECS["C11"]["assumptions"] = COMMON_ASSUME + ["the OS gives concurrent runs different local ports (held UDP socket / reserved listener / connected socket)", "two kernel-chosen initial sequence numbers differ by more than 255"]
+noise_labels = ["C02/", "C09/", "panic", "send/", "setup/"]
+noise = [dict(J("udp", "Verif_C02_udp4", ["accepted", "noise-skipped"], form=0, noise=40), labels=noise_labels), dict(J("icmp", "Verif_C02_icmp4", ["accepted", "noise-skipped"], form=4, noise=28), labels=noise_labels),
+         dict(J("tcp", "Verif_C02_tcp", ["accepted", "noise-skipped"], form=4, noise=40), labels=noise_labels), dict(J("sack", "Verif_C02_sack", ["accepted", "noise-skipped"], form=4, noise=40, max=30, loosen=1), labels=noise_labels),
+         dict(J("icmp", "Verif_C02_icmp6", ["accepted", "noise-skipped"], form=0, noise=48, noise6=1), labels=noise_labels), dict(J("udp", "Verif_C02_udp6", ["accepted", "noise-skipped"], form=0, min=2, noise=48, noise6=1), labels=noise_labels)]
+SPECS["C09"]["tiers"]["quick"]["jobs"] += noise
+SPECS["C09"]["tiers"]["thorough"]["jobs"] += noise + [dict(J("udp", "Verif_C02_udp4", ["accepted", "noise-skipped"], form=2, noise=56, loosen=1), labels=noise_labels), dict(J("tcp", "Verif_C02_tcp", ["accepted", "noise-skipped"], form=0, noise=56, paris=1), labels=noise_labels),
+                                                  dict(J("sack", "Verif_C02_sack", ["accepted", "noise-skipped"], form=0, noise=56, max=255, loosen=0), labels=noise_labels)]
+SPECS["C09"]["bounds"]["state independence"] = "one arbitrary non-accepted packet (28-56 bytes) delivered through the real ReceiveProbe before a genuine reply of the catalogue: the genuine reply is still recognised with the same TTL and responder"
+SPECS["C17"]["tiers"]["quick"]["jobs"] += [J("traceroute", "Verif_C17_run", ["redacted", "kept"], timeout=900, no_replay=True, max_preempt=1)]
+SPECS["C17"]["tiers"]["thorough"]["jobs"] += [J("traceroute", "Verif_C17_run", ["redacted", "kept"], timeout=7200, no_replay=True, max_preempt=2)]
+SPECS["C17"]["labels"] = ["C17/", "C16/reachable", "C19/request"]
+SPECS["C17"]["outside_bounds"] = ["JSON encoding of the redacted document", "cobra flag parsing"]
+
 for prop, s in SPECS.items():
     with open(os.path.join(HERE, prop + ".json"), "w") as f:
         json.dump(s, f, indent=1)
